@@ -13,6 +13,11 @@ differentiated function (parameter 0), the coefficients are its cofactor under t
 (or `scale` when dx is None), the row selector is the non-trivial entry of the table selector.  Locals (`offset`, `dxFloat`,
 `pos`, `coeff`, `temp`, ...), temporaries, extracted helpers, keyword arguments and the nesting of the n / order branches never
 appear in what is compared.  Module-level temporaries holding (parts of) a table are inlined before the table is folded.
+Module-level *constants* built from the tables (`_STENCILS = {1: (FIRST_DERIV_POS, FIRST_DERIV_COEFF), ..}`, pairs, aliases; bound once, never
+stored into anywhere in the package) are evaluated like a local display and count as tables in the def-use chains of R19.5.
+`np.multiply.outer(a, b)` is evaluated exactly as `a[(...,) + (None,) * b.ndim] * b`; the number of axes of b must follow from its construction
+(`_layout`), otherwise the statement is undecided.  The axis algebra (`_apply_sel`, `_layout`) also places the stencil axis of every table access
+of gradient / hessian on the axis that is summed over.
 """
 from __future__ import annotations
 
@@ -60,6 +65,239 @@ def _tables(chk: Check) -> dict:
         out[t] = fold(_inline_globals(m.globals[t], {k: v for k, v in m.globals.items() if k != t}))
         chk.touch(f"helpers:{t}")
     return out
+
+
+def _is_table_name(nm: str) -> bool:
+    return nm.endswith("_POS") or nm.endswith("_COEFF")
+
+
+MUTATORS = {"update", "pop", "popitem", "clear", "setdefault", "append", "extend", "insert", "remove", "sort", "reverse", "fill", "put", "itemset", "resize",
+            "__setitem__", "__delitem__"}
+
+
+def _module_constants(S, modname: str) -> dict:
+    """name -> defining expression of the module-level names that are constants: bound exactly once at the top level of the module (never in a
+    nested block, never by an import / def / class / loop), not declared `global` anywhere, and never stored into (`NAME[k] = ..`, `NAME.a = ..`,
+    `NAME += ..`) anywhere in the package"""
+    cache = S.__dict__.setdefault("_c19_module_constants", {})
+    if modname in cache:
+        return cache[modname]
+    m = S.modules[modname]
+    count: dict = {}
+    value: dict = {}
+
+    def bump(t, v=None):
+        if isinstance(t, ast.Name):
+            count[t.id] = count.get(t.id, 0) + 1
+            if v is not None:
+                value[t.id] = v
+        elif isinstance(t, (ast.Tuple, ast.List, ast.Starred)):
+            for x in (t.elts if not isinstance(t, ast.Starred) else [t.value]):
+                bump(x)
+                bump(x)
+
+    for st in m.tree.body:
+        if isinstance(st, ast.Assign):
+            for t in st.targets:
+                bump(t, st.value if len(st.targets) == 1 else None)
+                if len(st.targets) != 1:
+                    bump(t)
+        elif isinstance(st, ast.AnnAssign) and st.value is not None:
+            bump(st.target, st.value)
+        elif isinstance(st, (ast.FunctionDef, ast.AsyncFunctionDef, ast.ClassDef)):
+            count[st.name] = count.get(st.name, 0) + 2
+        elif isinstance(st, (ast.Import, ast.ImportFrom)):
+            for al in st.names:
+                nm = (al.asname or al.name).split(".")[0]
+                count[nm] = count.get(nm, 0) + 2
+        elif isinstance(st, ast.Expr):
+            continue
+        else:
+            # anything else at module level (if / for / try / with / del / augmented assignment): every name it binds is not a constant
+            for x in ast.walk(st):
+                if isinstance(x, ast.Name) and isinstance(x.ctx, (ast.Store, ast.Del)):
+                    count[x.id] = count.get(x.id, 0) + 2
+    spoiled = set()
+    for mm in S.modules.values():
+        for x in ast.walk(mm.tree):
+            if isinstance(x, (ast.Global, ast.Nonlocal)):
+                spoiled |= set(x.names)
+            else:
+                b = None
+                if isinstance(x, (ast.Subscript, ast.Attribute)) and isinstance(x.ctx, (ast.Store, ast.Del)):
+                    b = x
+                elif isinstance(x, ast.Call) and isinstance(x.func, ast.Attribute) and x.func.attr in MUTATORS:
+                    b = x.func.value
+                # NAME[k] = .., module.NAME[k] = .., NAME.update(..): every name on the way to the base is no longer a constant
+                while isinstance(b, (ast.Subscript, ast.Attribute)):
+                    if isinstance(b, ast.Attribute):
+                        spoiled.add(b.attr)
+                    b = b.value
+                if isinstance(b, ast.Name):
+                    spoiled.add(b.id)
+    out = {k: v for k, v in value.items() if count.get(k) == 1 and k not in spoiled}
+    cache[modname] = out
+    return out
+
+
+def _table_derived(S, modname: str) -> set:
+    """module-level constants whose value is built from the stencil tables (a dict / tuple display of tables, an alias, a selection), transitively"""
+    consts = _module_constants(S, modname)
+    out: set = set()
+    changed = True
+    while changed:
+        changed = False
+        for k, v in consts.items():
+            if k in out or _is_table_name(k):
+                continue
+            if any(isinstance(x, ast.Name) and (_is_table_name(x.id) or x.id in out) for x in ast.walk(v)):
+                out.add(k)
+                changed = True
+    return out
+
+
+def _table_rank(S, name: str):
+    """number of axes of the arrays held by the table `name` (the same for every order key), None when not decided"""
+    cache = S.__dict__.setdefault("_c19_table_rank", {})
+    if name not in cache:
+        r = None
+        try:
+            m = S.modules["helpers"]
+            t = fold(_inline_globals(m.globals[name], {k: v for k, v in m.globals.items() if k != name}))
+
+            def depth(v):
+                if isinstance(v, list):
+                    ds = {depth(x) for x in v}
+                    return 1 + ds.pop() if len(ds) == 1 and None not in ds else None
+                return 0
+            if isinstance(t, dict) and t:
+                ds = {depth(v) for v in t.values()}
+                r = ds.pop() if len(ds) == 1 else None
+        except (Undecided, KeyError):
+            r = None
+        cache[name] = r
+    return cache[name]
+
+
+def _index_rank(e):
+    """rank of an index expression: 0 for an integer, 1 for a list (a list display of scalars, list(..), np.arange(..).tolist(), range(..)); None otherwise
+    (index arrays shaped like the input, symbols).  The axis lists of gradient / hessian are lists of integers (each element is compared with
+    nbrVariables in an assert), which is what the pinned spelling `identity[axisList, None, :]` relies on as well."""
+    if isinstance(e, sp.Integer):
+        return 0
+    if isinstance(e, sp.Tuple):
+        return 1 if all(not isinstance(x, sp.Tuple) for x in e) else None
+    if isinstance(e, sp.core.function.AppliedUndef) and e.func.__name__ in ("list", "np.arange", "numpy.arange", "range"):
+        return 1
+    return None
+
+
+IDX = "<list>"      # label of the result axis made by a list index
+
+
+def _apply_sel(axes, sel, lenient: bool = False):
+    """axis labels after subscripting a value with axis labels `axes` by the selector `sel` (numpy basic indexing plus at most one list index);
+    None when not decided.  New axes are labelled None, the axis made by a list index IDX.  `lenient`: an index whose construction is not visible
+    (the result of a helper, a value merged from several branches) is taken to be the list of axes, as the pairing rule has always done."""
+    if axes is None:
+        return None
+    if sel == TSEL:
+        return list(axes[::-1])
+    if not isinstance(sel, sp.Tuple):
+        return None
+    entries = list(sel)
+    consuming = [e for e in entries if e not in (NONE, DOTS)]
+    if entries.count(DOTS) > 1 or len(consuming) > len(axes):
+        return None
+    out, i, lists = [], 0, 0
+    for e in entries:
+        if e == NONE:
+            out.append(None)
+        elif e == DOTS:
+            k = len(axes) - len(consuming)
+            out += list(axes[i:i + k])
+            i += k
+        elif e == COLON or (isinstance(e, sp.Symbol) and ":" in e.name):
+            out.append(axes[i])
+            i += 1
+        else:
+            r = _index_rank(e)
+            if r is None and lenient:
+                r = 1
+            if r == 0:
+                i += 1
+            elif r == 1:
+                lists += 1
+                out.append(IDX)
+                i += 1
+            else:
+                return None
+    if lists > 1:
+        return None
+    return out + list(axes[i:])
+
+
+def _layout(t, S, lenient: bool = False):
+    """axis labels of the array term t as far as they follow from its construction: ('tab', k) axis k of a table array, IDX, None (a new / other
+    axis); None when the number of axes is not known"""
+    if not isinstance(t, sp.Basic):
+        return None
+    if t.is_number:
+        return []
+    if _fn(t, IDENT):
+        return [("id", 0), ("id", 1)]
+    if _fn(t, TABV):
+        if len(t.args) < 2 or not isinstance(t.args[1], sp.Tuple) or len(t.args[1]) != 1:
+            return None
+        r = _table_rank(S, _tabname(t))
+        axes = [("tab", k) for k in range(r)] if r is not None else None
+        for s in t.args[2:]:
+            axes = _apply_sel(axes, s, lenient)
+        return axes
+    if _fn(t, GETI):
+        return _apply_sel(_layout(t.args[0], S, lenient), t.args[1], lenient)
+    if _fn(t, TRANSPOSE):
+        a = _layout(t.args[0], S, lenient)
+        return a[::-1] if a is not None else None
+    if _fn(t, EXPAND):
+        a = _layout(t.args[0], S, lenient)
+        ax = t.args[1]
+        ax = list(ax) if isinstance(ax, sp.Tuple) else [ax]
+        if a is None or not all(isinstance(k, sp.Integer) for k in ax):
+            return None
+        rank = len(a) + len(ax)
+        where = sorted({int(k) % rank for k in ax})
+        if len(where) != len(ax):
+            return None
+        out, it = [], iter(a)
+        for j in range(rank):
+            out.append(None if j in where else next(it))
+        return out
+    if isinstance(t, sp.Mul):
+        ls = [_layout(f, S, lenient) for f in t.args]
+        if any(l is None for l in ls):
+            return None
+        rank = max(len(l) for l in ls)
+        return [None] * rank           # broadcast product: only the number of axes is used
+    return None
+
+
+def _trailing_axes(t, k: int, S):
+    """t[(...,) + (None,) * k]"""
+    if k == 0:
+        return t
+    new = sp.Tuple(DOTS, *([NONE] * k))
+    if _fn(t, TABV):
+        return TABV(*t.args, new)
+    if _fn(t, GETI) and isinstance(t.args[1], sp.Tuple):
+        sel = list(t.args[1])
+        if DOTS in sel:
+            return GETI(t.args[0], sp.Tuple(*sel, *([NONE] * k)))
+        base = _layout(t.args[0], S)
+        used = len([e for e in sel if e != NONE])
+        if base is not None and used <= len(base):
+            return GETI(t.args[0], sp.Tuple(*sel, *([COLON] * (len(base) - used)), *([NONE] * k)))
+    return GETI(t, new)
 
 
 def r19_1(chk: Check, tabs: dict) -> None:
@@ -134,6 +372,7 @@ class _Ex19(Extractor):
         # any private function of helpers is an extracted helper: look through it
         super().__init__(source, inline=lambda name: name.split(":")[0] == "helpers" and name.split(":")[1].startswith("_"))
         self._k = 0
+        self._modvals: dict = {}
 
     def fresh(self):
         self._k += 1
@@ -188,13 +427,40 @@ class _Ex19(Extractor):
 
     # ---- expressions
     def index(self, v, i):
+        if _fn(v, TABV):
+            return TABV(*v.args, sp.Tuple(sp.Integer(i)))      # `rowX, rowY = TABLE[key]` is TABLE[key][0], TABLE[key][1]
         if isinstance(v, sp.Basic) and not isinstance(v, sp.Symbol):
             return GETI(v, sp.Tuple(sp.Integer(i)))      # unpacking `lo, hi = t` is t[0], t[1]
         return super().index(v, i)
 
+    def module_value(self, mod: str, name: str, depth: int):
+        """value of a module-level constant built from the stencil tables (`_STENCILS = {1: (FIRST_DERIV_POS, FIRST_DERIV_COEFF), ...}`), evaluated in
+        the module's own scope; None when `name` is not such a constant"""
+        if mod not in self.source.modules or name not in _table_derived(self.source, mod):
+            return None
+        key = (mod, name)
+        if key in self._modvals:
+            if self._modvals[key] is _Ex19._BUSY:
+                raise Undecided(f"module-level constant {name} is defined through itself")
+            return self._modvals[key]
+        self._modvals[key] = _Ex19._BUSY
+        try:
+            v = self.expr(_module_constants(self.source, mod)[name], {"__module__": mod, "__class__": None, "__depth__": depth}, depth)
+        except Undecided:
+            del self._modvals[key]
+            raise
+        self._modvals[key] = v
+        return v
+
+    _BUSY = object()
+
     def expr(self, n, env, depth=0):
         if isinstance(n, ast.Name) and n.id in TABLES and n.id not in env:
             return TABV(sp.Symbol(n.id))
+        if isinstance(n, ast.Name) and n.id not in env and env.get("__module__"):
+            g = self.module_value(env["__module__"], n.id, depth)
+            if g is not None:
+                return g
         if isinstance(n, ast.Dict) and n.keys and all(isinstance(k, ast.Constant) for k in n.keys):
             return {k.value: self.expr(v, env, depth) for k, v in zip(n.keys, n.values)}      # a dispatch table {1: ..., 2: ...}
         if isinstance(n, ast.JoinedStr) and len(n.values) == 1 and isinstance(n.values[0], ast.FormattedValue) \
@@ -250,6 +516,8 @@ class _Ex19(Extractor):
         if isinstance(v, (tuple, list)) and len(sel) == 1 and isinstance(sel[0], sp.Integer):
             return v[int(sel[0])]
         if all(s in (COLON, NONE, DOTS) for s in sel):
+            if NONE in sel and _fn(v, GETI):
+                return GETI(v, sp.Tuple(*sel))      # new axes on a selection: they decide on which result axis the selected list sits
             return v        # broadcasting only
         if isinstance(v, (sp.Basic, tuple, list)):
             return GETI(self.term(v), sp.Tuple(*sel))
@@ -281,6 +549,15 @@ class _Ex19(Extractor):
                 return ONES(self.soft(n.args[0], env, depth))
             if isnp and short in ("identity", "eye") and len(n.args) == 1 and not n.keywords:
                 return IDENT(self.soft(n.args[0], env, depth))
+            if isnp and parts[1:] == ["multiply", "outer"] and len(n.args) == 2 and not n.keywords:
+                # np.multiply.outer(a, b) == a[(...,) + (None,) * b.ndim] * b : all axes of a first, then all axes of b
+                a, b = self.expr(n.args[0], env, depth), self.expr(n.args[1], env, depth)
+                if not isinstance(a, sp.Basic) or not isinstance(b, sp.Basic):
+                    raise Undecided(f"np.multiply.outer of non-terms: {src(n)[:60]}")
+                lb = _layout(b, self.source)
+                if lb is None:
+                    raise Undecided(f"np.multiply.outer: the number of axes of the second operand is not known: {src(n.args[1])[:60]}")
+                return _trailing_axes(a, len(lb), self.source) * b
         if isinstance(f, ast.Attribute) and f.attr in ("reshape", "tolist", "flatten", "ravel"):
             b = dotted(f.value)
             if b is None or b in env:
@@ -555,6 +832,36 @@ def _first_index(tab):
     return None
 
 
+WRAPPERS = (GETI, EXPAND, TRANSPOSE, RESHAPE)
+
+
+def _stencil_axes(term, S) -> list:
+    """[(table access, axis -- counted from the end -- on which the one remaining axis of the table array sits in the factor built around it)];
+    the axis is None when it does not follow from the construction (more than one table axis left, an index array, a reshape)"""
+    out = []
+
+    def visit(e):
+        if not isinstance(e, sp.Basic):
+            return
+        if _fn(e, TABV) or any(_fn(e, w) for w in WRAPPERS):
+            inner = e
+            while any(_fn(inner, w) for w in WRAPPERS):
+                inner = inner.args[0]
+            if _fn(inner, TABV):
+                lay = _layout(e, S)
+                left = [i for i, a in enumerate(lay) if isinstance(a, tuple) and a[0] == "tab"] if lay is not None else []
+                out.append((inner, left[0] - len(lay) if len(left) == 1 else None))
+                return
+            visit(e.args[0])         # the shape arguments say nothing about the value
+            return
+        if isinstance(e, sp.core.function.AppliedUndef) and (e.func.__name__.startswith("attr_") or e.func.__name__ == "len"):
+            return
+        for a in e.args:
+            visit(a)
+    visit(term)
+    return out
+
+
 def r19_3(chk: Check) -> None:
     # ---- derivative(): per n ------------------------------------------------
     fi = chk.src.func("helpers:derivative")
@@ -608,7 +915,8 @@ def r19_3(chk: Check) -> None:
                                             ("hessian", "HESSIAN_POS", "HESSIAN_COEFF", 2, -3)):
         g = chk.src.func(f"helpers:{fname}")
         gp = g.params()
-        res = dict(tables=True, key=True, rows=True, pos=True, coeff=True, axis=True, pair=True)
+        res = dict(tables=True, key=True, rows=True, pos=True, coeff=True, axis=True, pair=True, staxis=True)
+        axes_seen = set()
         used, rows_seen, detail = set(), [], []
         runs = 0
         for order in (2, 4):
@@ -639,8 +947,14 @@ def r19_3(chk: Check) -> None:
                     res["pos"] = res["pos"] and dpos == 1 and lin_p
                     res["coeff"] = res["coeff"] and dco == -n and lin_c
                     res["axis"] = res["axis"] and st.axis == kaxis
+                    # the one axis left of each table access (the stencil points) is the axis summed over: axis kaxis of the coefficients, which
+                    # multiply f(pos) aligned at the end, and one further from the end in pos, which carries the variable axis last
+                    pa, ca = _stencil_axes(st.pos, chk.src), _stencil_axes(st.coeff, chk.src)
+                    axes_seen.add(f"positions {sorted(str(a) for _, a in pa)} coefficients {sorted(str(a) for _, a in ca)}")
+                    res["staxis"] = res["staxis"] and len(pa) == len(tp) and len(ca) == len(tc) and bool(pa) and bool(ca) \
+                        and all(a == kaxis - 1 for _, a in pa) and all(a == kaxis for _, a in ca)
                     if fname == "hessian":
-                        okp, d_ = _hessian_pairing(st, step)
+                        okp, d_ = _hessian_pairing(st, step, chk.src)
                         res["pair"] = res["pair"] and okp
                         detail.append(d_)
         W = g.where()
@@ -658,27 +972,31 @@ def r19_3(chk: Check) -> None:
         chk.ob("R19.3", W, f"{fname}(): coefficients carry dx**-{n}", res["coeff"],
                key=f"{fname}|coeffdeg", how="cas-proof(homogeneity)")
         chk.ob("R19.3", W, f"{fname}(): the stencil axis summed over is {kaxis}", res["axis"], key=f"{fname}|sumaxis")
+        chk.ob("R19.3", W, f"{fname}(): the stencil points of every table access lie along the axis summed over (axis {kaxis - 1} of the positions, "
+               f"axis {kaxis} of the coefficients)", res["staxis"] and runs >= 4, "; ".join(sorted(axes_seen))[:300], key=f"{fname}|stencilaxis", how="axis-algebra")
         if fname == "hessian":
             chk.ob("R19.3", W, "hessian(): each axis list sits on the same result axis in positions and in the step-size denominator",
                    res["pair"], "; ".join(sorted(set(detail)))[:300], key="hessian|axispairing", how="axis-algebra")
     chk.floor("R19.3", 14)
 
 
-def _hessian_pairing(st: Stencil, step):
+def _hessian_pairing(st: Stencil, step, S):
     """identity[L, None, :] with POS row r ; step[..., L] expanded so that L sits on the same result axis"""
     pair_pos, pair_dx = {}, {}
     for t in sp.Add.make_args(sp.expand(st.pos)):
         tb = _tabs(t)
-        ids = [a for a in t.atoms(sp.Function) if _fn(a, GETI) and _fn(a.args[0], IDENT)]
+        ids = [a for a in t.atoms(sp.Function) if _fn(a, GETI) and a.has(IDENT)]
         if not tb:
             continue
-        if len(tb) != 1 or len(ids) != 1:
+        if len(tb) != 1 or len(ids) != 1 or not _fn(ids[0].args[0], IDENT):
             return False, f"position term not understood: {str(t)[:80]}"
         sel = ids[0].args[1]
-        ax = [(e, i - len(sel)) for i, e in enumerate(sel) if e not in (COLON, NONE, DOTS)]
-        if len(ax) != 1:
+        lists = [e for e in sel if e not in (COLON, NONE, DOTS) and not (isinstance(e, sp.Symbol) and ":" in e.name) and _index_rank(e) != 0]
+        lay = _layout(ids[0], S, lenient=True)
+        where = [i for i, a in enumerate(lay) if a == IDX] if lay is not None else []
+        if len(lists) != 1 or len(where) != 1:
             return False, "identity selector not understood"
-        pair_pos[str(_first_index(tb[0]))] = ax[0]       # axis relative to the end (incl. the variable axis)
+        pair_pos[str(_first_index(tb[0]))] = (lists[0], where[0] - len(lay))       # axis relative to the end (incl. the variable axis)
     for a in st.coeff.atoms(sp.Function):
         if _fn(a, EXPAND) and a.args[0].has(step):
             inner = a.args[0]
@@ -807,8 +1125,13 @@ def r19_5(chk: Check) -> None:
         exact = [d for d in g.nodes if is_exact(d)]
         chk.ob("R19.5", fi.where(), f"{fname}(): the step is made exactly representable, h = (x + h) - x, before the stencil is built", len(exact) == 1,
                f"{len(exact)} such assignments", key=f"{fname}|exact-step")
+        # a module-level constant built from the tables (`_STENCILS = {1: (FIRST_DERIV_POS, FIRST_DERIV_COEFF), ..}`, an alias, a pair) is a table too,
+        # unless the function binds the same name itself
+        bound_here = params | {x.id for x in ast.walk(fi.node) if isinstance(x, ast.Name) and isinstance(x.ctx, ast.Store)}
+        table_globals = _table_derived(S, fi.module) - bound_here
+
         def is_table(nm: str) -> bool:
-            return nm.endswith("_POS") or nm.endswith("_COEFF")
+            return _is_table_name(nm) or nm in table_globals
 
         def tabular(d, depth=0) -> bool:
             """the value defined by d is (selected from) a stencil table"""
@@ -842,11 +1165,49 @@ def r19_5(chk: Check) -> None:
     chk.floor("R19.5", 6)
 
 
+def r19_bounds_as_given(chk: Check) -> None:
+    """helpers.derivative selects one-sided stencils by comparing x +- k dx with the bounds it was given.  The bounds must enter those comparisons as
+    given: `bound or default`, `bound if bound else default` test the *truthiness* of a number, so a bound of exactly 0 (the lower bound of the
+    temperature in EffectivePotential.derivT) is silently treated as absent and the function is evaluated below it."""
+    fi = chk.src.func("helpers:derivative")
+    chk.touch(fi.name)
+    derived = {"bounds"}
+    changed = True
+    while changed:
+        changed = False
+        for st in ast.walk(fi.node):
+            if isinstance(st, ast.Assign) and any(isinstance(x, ast.Name) and x.id in derived for x in ast.walk(st.value)) \
+                    and not any(isinstance(x, ast.Call) for x in ast.walk(st.value) if not (isinstance(x, ast.Call) and (dotted(x.func) or "") in ("tuple", "list", "float"))):
+                for t in st.targets:
+                    for x in ast.walk(t):
+                        if isinstance(x, ast.Name) and x.id not in derived and x.id != "boundsTuple":
+                            derived.add(x.id)
+                            changed = True
+
+    def elem(e) -> bool:
+        """e denotes one of the given bounds (an element, not the tuple / None test of the whole argument)"""
+        if isinstance(e, ast.Subscript) and isinstance(e.value, ast.Name) and e.value.id in derived | {"boundsTuple"}:
+            return True
+        return isinstance(e, ast.Name) and e.id in derived - {"bounds"}
+
+    bad = []
+    for x in ast.walk(fi.node):
+        if isinstance(x, ast.BoolOp) and any(elem(v) for v in x.values[:-1]):
+            bad.append(x)
+        elif isinstance(x, ast.IfExp) and (elem(x.test) or (isinstance(x.test, ast.UnaryOp) and isinstance(x.test.op, ast.Not) and elem(x.test.operand))):
+            bad.append(x)
+        elif isinstance(x, (ast.If, ast.While)) and (elem(x.test) or (isinstance(x.test, ast.UnaryOp) and isinstance(x.test.op, ast.Not) and elem(x.test.operand))):
+            bad.append(x.test)
+    chk.ob("R19.2", fi.where(), "derivative(): the given bounds are compared as numbers, never tested for truthiness (`bound or default` drops a bound of 0)", not bad,
+           "; ".join(f"line {x.lineno}: `{src(x)[:50]}`" for x in bad), key="bounds-as-given")
+
+
 def rules(chk: Check) -> None:
     tabs = chk.stage(_tables, chk)
     if tabs is not None:
         chk.stage(r19_1, chk, tabs)
         chk.stage(r19_2, chk, tabs)
+    chk.stage(r19_bounds_as_given, chk)
     chk.stage(r19_3, chk)
     chk.stage(r19_4, chk)
     chk.stage(r19_5, chk)
